@@ -54,7 +54,7 @@ def childText (st : Style) (s : Text) (isLineStart : Bool) (sub : Option Skip) :
     | some (.mk k _) => k
     | none => 0
   let t0 := s.drop k
-  if isLineStart && st.ws.spaceCollapse then lstripSp t0 else t0
+  if isLineStart && st.ws.prefCollapse then lstripSp t0 else t0
 
 /-- `current_line += lines[0]`, the forced line breaks, `current_line = lines[-1]` -/
 def pushLines (acc : Acc) (lines : List Rat) : Except PyErr (Acc × Bool) :=
@@ -95,7 +95,7 @@ def widthsLoop (st : Style) (minimum outer firstLine : Bool) (rec : Rec) :
           .ok (acc.yielded.reverse ++ [acc.current + (tl.1.headD 0) + acc.indent])
         else
           let canBreak := t.getLast? == some ' ' || t.getLast? == some '\n'
-          let lines := if minimum && st.ws.textWrap && canBreak then tl.1 ++ [0] else tl.1
+          let lines := if minimum && st.ws.prefWrap && canBreak then tl.1 ++ [0] else tl.1
           (pushLines acc lines).bind fun r =>
             widthsLoop st minimum outer firstLine rec rest' r.1 r.2 none
 
